@@ -190,6 +190,14 @@ Next == \/ \E o \in Objs, p \in Prios, w \in Windows, sc \in Scripts : TopAdd(o,
 
 Spec == Init /\ [][Next]_vars
 
+\* Liveness: every request is worked off - each requested timestep begins, visits every system of its iteration sequence and
+\* ends (or is refused once the model is complete).  Fairness only on the scheduler's own steps; what happens between requests
+\* is the user's choice.  The implementation side of this property is the drivers' program budget (a program that does not end
+\* is a `runaway` event, which no trace specification explains).
+StepActs == BeginStep \/ StepWhenComplete \/ Visit \/ EndStep
+FairSpec == Spec /\ WF_vars(StepActs)
+C02_RequestEnds == (pending > 0 \/ step.active) ~> (pending = 0 /\ ~step.active)
+
 -----------------------------------------------------------------------------
 (***************************************************************************)
 (* Properties.  Obligations are operators over explicit arguments so that  *)
